@@ -7,6 +7,7 @@ import ZV.Model.Machine
 import ZV.Model.ZCore
 import ZV.Model.ZCoreSpec
 import ZV.Props.C02Statements
+import ZV.Proofs.RefMachine
 
 namespace ZV.Props.C02
 open ZV.Machine ZV.ZCore
@@ -24,5 +25,22 @@ theorem erase_ignores_annotations (x : Nat) (a a' : VTy) (m n : C) (b b' : CTy) 
     eraseC (.case v d arms b) = eraseC (.case v d' arms b') ∧
     eraseV (.ctor d "K" v) = eraseV (.ctor d' "K" v) := by
   simp [eraseC, eraseV]
+
+/-- More fuel never changes a finished run. -/
+theorem run_mono : Statement.run_mono := ZV.ZCore.run_mono_pf
+
+/-- A product value taken apart into its fields and rebuilt is the same fields again. -/
+theorem product_fields_roundtrip : Statement.product_fields_roundtrip := ZV.ZCore.product_fields_roundtrip_pf
+
+/-- Whatever the reference semantics computes for a program, the machine computes for its
+erasure: same exit code or trap, same output bytes. -/
+theorem ref_to_machine : Statement.ref_to_machine := ZV.ZCore.ref_to_machine_pf
+
+/-- Whatever the machine computes for the erasure of an accepted program, the reference
+semantics computes too. -/
+theorem machine_to_ref : Statement.machine_to_ref := ZV.ZCore.machine_to_ref_pf
+
+/-- The reference semantics of an accepted program never goes wrong. -/
+theorem ref_never_wrong : Statement.ref_never_wrong := ZV.ZCore.ref_never_wrong_pf
 
 end ZV.Props.C02
